@@ -1,7 +1,7 @@
 (* C04 — Message integrity accepts exactly the untampered message under the right key. Statements only. *)
 From Coq Require Import List NArith Bool.
 Import ListNotations.
-From Rustun Require Import Base.Tlv Crypto.Sha256 Crypto.Sha1Md5 Codec.InputText Codec.Wire Proofs.WireProofs.
+From Rustun Require Import Base.Tlv Crypto.Sha256 Crypto.Sha1Md5 Codec.InputText Codec.Wire Codec.AttrValue Codec.Keys Proofs.WireProofs.
 Open Scope N_scope.
 
 (* acceptance of ANY buffer under key k means exactly: its first MESSAGE-INTEGRITY equals HMAC-SHA1(k, input text), the
@@ -69,3 +69,13 @@ Example C04_hmac_sha1_rfc2202 : hex (hmac_sha1 [74;101;102;101] [119;104;97;116;
 Proof. vm_compute. reflexivity. Qed.
 Example C04_lt_key_doc : Sha1Md5.hex (md5 [117;115;101;114;58;114;101;97;108;109;58;112;97;115;115]) = 0x8493FBC53BA582FB4C044C456BDC40EB.
 Proof. vm_compute. reflexivity. Qed.
+
+(* the keys (Codec/Keys.v, compared with HMACKey::new_short_term / new_long_term on generated strings by the wire suite):
+   short-term K = OpaqueString(password); long-term K = MD5 or SHA-256 of user ":" OpaqueString(realm) ":" OpaqueString(password) *)
+Example C04_keys_definition : forall user realm password,
+  lt_key user realm password 1 = match av_precis realm, av_precis password with
+                                 | VOk r, VOk p => VOk (md5 (user ++ [58] ++ r ++ [58] ++ p))
+                                 | VOk _, VErr | VErr, _ => VErr
+                                 | VOk _, VPanic | VPanic, _ => VPanic
+                                 | VOk _, VUnmodelled | VUnmodelled, _ => VUnmodelled end.
+Proof. intros. unfold lt_key. destruct (av_precis realm), (av_precis password); reflexivity. Qed.
